@@ -66,6 +66,11 @@ func urlReplay(s *Summary, raw json.RawMessage) {
 		}
 	}
 	extras := [][2]string{{"q", "a b&c"}, {"page", "2"}}
+	// an extra argument may be NAMED like a variable of the route (without the braces it is a query parameter like any other)
+	for k := range want {
+		extras[1][0] = k
+		break
+	}
 	for style := 0; style < 6; style++ {
 		strict := style >= 3 // the same three argument styles on a StrictLastSlash router
 		if (strict && !c.RStrict) || (!strict && !c.Routable) {
